@@ -267,15 +267,58 @@ def count_model_paths(models) -> int:
     return len(paths)
 
 
+def largest_cluster(models) -> int:
+    """Size of the largest set of object paths connected by 'share at least one key' - an upper bound for the largest
+    merge group under any comparator.  The registry's group closure explodes combinatorially for clusters >= 25
+    (measured: 10+ s), which is a cost of the code under test, not something these checks are about."""
+    keysets = {}
+
+    def walk(v, path):
+        if isinstance(v, dict):
+            keysets.setdefault(path, set()).update(v.keys())
+            for k, x in v.items():
+                walk(x, path + (k,))
+        elif isinstance(v, list):
+            for x in v:
+                walk(x, path + ("[]",))
+
+    for name, samples in models:
+        for smp in samples:
+            walk(smp, (name,))
+    ks = list(keysets.values())
+    parent = list(range(len(ks)))
+
+    def find(a):
+        while parent[a] != a:
+            parent[a] = parent[parent[a]]
+            a = parent[a]
+        return a
+
+    for i in range(len(ks)):
+        for j in range(i + 1, len(ks)):
+            if ks[i] & ks[j]:
+                parent[find(i)] = find(j)
+    sizes = {}
+    for i in range(len(ks)):
+        r = find(i)
+        sizes[r] = sizes.get(r, 0) + 1
+    return max(sizes.values()) if sizes else 0
+
+
 MAX_MODEL_PATHS = 28
+MAX_CLUSTER = 18
 
 
 def gen_workload(rng: random.Random, **fixed):
     knobs = draw_knobs(rng, **fixed)
     g = Gen(rng, knobs)
     w = g.workload()
-    while count_model_paths(w["models"]) > MAX_MODEL_PATHS and g.k["depth"] > 0:
-        g.k["depth"] -= 1
+    while (count_model_paths(w["models"]) > MAX_MODEL_PATHS or largest_cluster(w["models"]) > MAX_CLUSTER) \
+            and (g.k["depth"] > 0 or g.k["n_models"] > 1):
+        if g.k["depth"] > 0:
+            g.k["depth"] -= 1
+        else:
+            g.k["n_models"] = max(1, g.k["n_models"] - 2)
         w = g.workload()
     w["paths"] = count_model_paths(w["models"])
     w["knobs"] = {kk: g.k[kk] for kk in ("n_shapes", "width", "depth", "samples", "n_models")}
